@@ -195,10 +195,18 @@ struct Run {
 
 impl Run {
     fn new(cap: Option<usize>, hmode: u8) -> Run {
-        let handler = hmode != 0;
+        let handler = hmode == 1 || hmode == 2;
         let (etx, erx) = unbounded();
         let (gtx, grx) = unbounded();
         let sink = Gated { ev: etx.clone(), go: grx };
+        if hmode == 3 {
+            // the direct constructors instead of the builder
+            let q = match cap {
+                Some(c) => QueuingMetricSink::with_capacity(sink, c),
+                None => QueuingMetricSink::from(sink),
+            };
+            return Run::finish_new(q, erx, gtx, false);
+        }
         let mut b = QueuingMetricSink::builder();
         // the builder calls may come in either order (handler mode 1: capacity first, 2: handler first)
         if hmode != 2 {
@@ -222,6 +230,10 @@ impl Run {
             }
         }
         let q = b.build(sink);
+        Run::finish_new(q, erx, gtx, handler)
+    }
+
+    fn finish_new(q: QueuingMetricSink, erx: Receiver<Ev>, gtx: Sender<Out>, handler: bool) -> Run {
         let (ctx, crx) = unbounded();
         let (rtx, rrx) = unbounded();
         let (ttx, trx) = unbounded();
@@ -712,7 +724,9 @@ fn emit_case(out: &mut impl Write, cap: Option<usize>, handler: bool, ops: &[Str
         *count += 1;
         return;
     }
-    let hmode: u8 = if !handler { 0 } else { 1 + ((*count / 2) % 2) as u8 };
+    // 0: builder without handler, 3: QueuingMetricSink::with_capacity / ::from, 1 / 2: builder with handler
+    // (capacity first / handler first)
+    let hmode: u8 = if !handler { if (*count / 2) % 2 == 0 { 0 } else { 3 } } else { 1 + ((*count / 2) % 2) as u8 };
     let (all, obs) = run_queue(cap, hmode, ops);
     writeln!(
         out,
